@@ -103,7 +103,7 @@ C07 = family("C07", BASE, Teams=fs("t1"), BossMode="idxNull", TeamMode="idx", Vi
              Names=fs("", "a", "b", "p1", "p2", "LONG"), BadNames=fs("LONG"),
              Ops=fs("create", "update", "delete", "createTeam", "deleteTeam", "commitAction", "preCommit", "callerError", "addLinks"),
              NamePool=fs("a", "LONG"), RolePool=fs(fs(), fs("r1"), fs(""), fs("r1", "LONGR")), Roles=fs("r1", "r2", "r3", "", "LONGR"),
-             BossPool=fs(NIL, "p1"), TeamPool=fs(NIL, "t1"),
+             BossPool=fs(NIL, "p1", "p2"), TeamPool=fs(NIL, "t1"),
              Nicks=fs("x", "y", ""), VetoPool=fs(False, True), PrePool=fs("ok", "fail"), TxKinds=fs("update", "batch"),
              SysCtxs=fs(False, True), SysPool=fs(False, True), FieldSets=Sub("FS_C07"), MaxOps=3)
 # writes the storage layer refuses (over-long index key, over-long or empty set element), through either store
@@ -136,7 +136,7 @@ FS_ALL = Sub("FS_All")
 MC_QUICK = {
     "C06": dict(MaxOps=1, Teams=fs("t1"), TeamPool=fs(NIL, "t1"), NickPool=fs(NIL), RolePool=fs(fs(), fs("r1")), BossPool=fs(NIL, "p1"), GradePool=fs("g1"), FieldSets=FS_ALL,
                 Ops=fs("create", "update", "delete", "createTeam", "deleteTeam", "addLinks", "rcInc"), MaxRc=1),
-    "C07": dict(MaxOps=2, RolePool=fs(fs(), fs("")), SysCtxs=fs(False), SysPool=fs(False), TxKinds=fs("update"), FieldSets=FS_ALL),
+    "C07": dict(MaxOps=2, RolePool=fs(fs(), fs("")), SysCtxs=fs(False), SysPool=fs(False), TxKinds=fs("update"), FieldSets=FS_ALL, BossPool=fs(NIL, "p1")),
     "C08": dict(MaxOps=2, NickPool=fs(NIL), LeadPool=fs(False), TxKinds=fs("update"), FieldSets=FS_ALL),
     "C15": dict(MaxOps=2, LeadPool=fs(False), NickPool=fs(NIL), FieldSets=FS_ALL),
     "C15_ext": dict(MaxOps=2, LeadPool=fs(False), NickPool=fs(NIL), FieldSets=FS_ALL),
@@ -148,7 +148,7 @@ MC_THOROUGH = {
                 Ops=fs("create", "update", "delete", "createTeam", "deleteTeam", "addLinks", "rcInc"), MaxRc=1),
     "C06_cascade": dict(MaxOps=2, Teams=fs("t1"), TeamPool=fs(NIL, "t1"), NickPool=fs(NIL), RolePool=fs(fs(), fs("r1")), BossPool=fs(NIL, "p1"), GradePool=fs("g1"), FieldSets=FS_ALL,
                         Ops=fs("create", "update", "delete", "createTeam", "deleteTeam", "addLinks", "rcInc"), MaxRc=1),
-    "C07": dict(MaxOps=2, TxKinds=fs("update")),
+    "C07": dict(MaxOps=2, TxKinds=fs("update"), BossPool=fs(NIL, "p1")),
     "C08": dict(MaxOps=2),
     "C15": dict(MaxOps=2),
     "C15_ext": dict(MaxOps=2),
